@@ -18,7 +18,9 @@ RULE = ("random nestings (depth up to 8) of `with action`, `with action.context(
         "(crossing 0-5 enclosing levels). current_action() is probed before, inside and after every construct and after every "
         "child against the interpreter's shadow stack (identity); the recorded tape is parsed and compared with the ground-truth "
         "forest so that children/new tasks/context-less messages are attributed as executed. A fifth of the with/context()/run blocks is "
-        "entered and run on another thread than the one that created the Action. part 'fork': os.fork() inside 1-4 open blocks; the child "
+        "entered and run on another thread than the one that created the Action. part 'scenario': an enclosing action finished explicitly from inside an inner block (every block still restores its predecessor, one end "
+        "message each), and a generator returned through Action.run() iterated after run() returned (the action is current during run() only). "
+        "part 'fork': os.fork() inside 1-4 open blocks; the child "
         "finds the innermost action current, logs below it, and leaving the inherited blocks restores the enclosing actions. non-trivial = an exceptional exit at "
         "depth >=2 (previous action not None); distinct by program shape")
 ASSUMPTIONS = ["generator-held blocks are closed only when the driver's context is what it was at the yield (properly nested use)"]
@@ -29,6 +31,8 @@ STYLES = ["with", "with", "ctx_finish", "ctx_finish", "run_finish", "run_finish"
 def plan(tier, seed):
     n = 12000 if tier == "quick" else 120000
     specs = [{"seed": seed, "lo": i, "hi": min(n, i + BATCH), "tier": tier} for i in range(0, n, BATCH)]
+    k = 2000 if tier == "quick" else 20000
+    specs += [{"part": "scenario", "seed": seed, "lo": i, "hi": min(k, i + 100), "tier": tier} for i in range(0, k, 100)]
     m = 200 if tier == "quick" else 2000
     specs += [{"part": "fork", "seed": seed, "lo": i, "hi": min(m, i + 20), "tier": tier} for i in range(0, m, 20)]
     return specs
@@ -65,6 +69,7 @@ def one(seed, i, tier, res):
     add_destinations(rec)
     it = Interp(tape=tape)
     it.explicit_loggers = True
+    it.late_calls = True
     it.cross_thread = True
     try:
         forest = it.run(prog)
@@ -91,6 +96,103 @@ def one(seed, i, tier, res):
         res["sample"] = {"program": prog, "probes": it.probes}
     if problems:
         res["violations"].append({"msg": problems[0], "mech": None, "detail": {"case": i, "problems": problems[:10], "program": prog}})
+
+
+def scenario_case(seed, i, res):
+    """Hand-written shapes the program generator does not produce: (a) an OUTER action is finished explicitly from inside an inner
+    block - scoping is by block, not by finish(), so every block still restores its predecessor; (b) Action.run(f) where f returns a
+    generator that the caller iterates after run() has returned - the action is current during run() only."""
+    from eliot import current_action, log_message, start_action
+    rng = random.Random("%s:C04:scn:%d" % (seed, i))
+    problems = []
+    got = []
+    add_destinations(got.append)
+
+    def expect(action, where):
+        res["counters"]["context_probes"] = res["counters"].get("context_probes", 0) + 1
+        if current_action() is not action:
+            problems.append("current_action() is %r, expected %r (%s)" % (current_action(), action, where))
+    try:
+        if i % 2 == 0:
+            depth = rng.randint(2, 5)
+            kinds = [rng.choice(["with", "context", "run"]) for _ in range(depth)]
+            victim = rng.randrange(depth - 1)  # an ancestor of the innermost block
+            stack = []
+
+            def nest(level):
+                if level == depth:
+                    expect(stack[-1], "innermost block before the explicit finish()")
+                    stack[victim].finish() if rng.random() < 0.5 else stack[victim].finish(RuntimeError("given up"))
+                    expect(stack[-1], "innermost block after finish() of the action of enclosing block %d" % victim)
+                    log_message(message_type="scn:m", n=1)
+                    return
+                a = start_action(action_type="scn:lvl%d" % level)
+                stack.append(a)
+                if kinds[level] == "with":
+                    with a:
+                        expect(a, "inside with-block %d" % level)
+                        nest(level + 1)
+                        expect(a, "with-block %d after its inner block was left (action %sfinished early)" % (level, "" if level == victim else "not "))
+                elif kinds[level] == "context":
+                    with a.context():
+                        expect(a, "inside context() %d" % level)
+                        nest(level + 1)
+                        expect(a, "context() %d after its inner block was left" % level)
+                    a.finish()
+                else:
+                    def body():
+                        expect(a, "inside run() %d" % level)
+                        nest(level + 1)
+                        expect(a, "run() %d after its inner block was left" % level)
+                    a.run(body)
+                    a.finish()
+                stack.pop()
+                expect(stack[-1] if stack else None, "after leaving block %d (%s)" % (level, kinds[level]))
+            nest(0)
+            ends = [m for m in got if m.get("action_status") in ("succeeded", "failed")]
+            if len(ends) != depth:
+                problems.append("%d actions, %d end messages (an action finished early from an inner block must still end exactly once)" % (depth, len(ends)))
+            res["nontrivial"].append(h(["outer-finish", kinds, victim]))
+        else:
+            outer = rng.choice([None, "consumer"])
+            consumer = start_action(action_type="scn:consumer") if outer else None
+            a = start_action(action_type="scn:producer")
+            seen = []
+
+            def producer(n):
+                for k in range(n):
+                    seen.append(current_action())
+                    log_message(message_type="scn:item", n=k)
+                    yield k
+
+            def consume():
+                it_ = a.run(producer, 3)
+                expect(consumer, "after run() returned a generator")
+                for k in it_:
+                    expect(consumer, "between steps of a generator returned through Action.run()")
+                    log_message(message_type="scn:consumed", n=k)
+                    if rng.random() < 0.3:
+                        break
+                expect(consumer, "after iterating the generator")
+            if consumer is not None:
+                with consumer:
+                    consume()
+            else:
+                consume()
+            a.finish()
+            expect(None, "after everything")
+            if any(x is not consumer for x in seen):
+                problems.append("the body of a generator returned through Action.run() ran with current_action() %r; it runs when iterated, in the iterating code's context" % (seen[:2],))
+            res["nontrivial"].append(h(["run-generator", outer]))
+    except BaseException as e:
+        problems.append("scenario raised %r" % (e,))
+    finally:
+        remove_destination(got.append)
+    res["evals"] += 1
+    c = res["counters"]
+    c["scenarios"] = c.get("scenarios", 0) + 1
+    if problems:
+        res["violations"].append({"msg": problems[0], "mech": None, "detail": {"part": "scenario", "case": i, "problems": problems[:6]}})
 
 
 def fork_case(seed, i, res):
@@ -202,6 +304,11 @@ def fork_case(seed, i, res):
 
 def run_case(spec):
     res = {"evals": 0, "nontrivial": [], "counters": {}, "violations": [], "sample": None}
+    if spec.get("part") == "scenario":
+        for i in range(spec["lo"], spec["hi"]):
+            scenario_case(spec["seed"], i, res)
+        res["sets"] = {"depths": []}
+        return res
     if spec.get("part") == "fork":
         for i in range(spec["lo"], spec["hi"]):
             fork_case(spec["seed"], i, res)
